@@ -154,6 +154,7 @@ type lockEngine struct {
 	releases map[*ssa.Function]bool
 	memo     map[string]*fnLockResult
 	reqMutex *types.Var
+	probs    map[*ssa.Function][]string
 }
 
 type rawAccess struct {
@@ -530,8 +531,8 @@ func (e *lockEngine) step(f *ssa.Function, ins ssa.Instruction, ls lockset, df m
 		if id, op, ok := lockOp(&call.Call); ok {
 			switch op {
 			case "Lock":
-				if res != nil && ls[id] != modeNone {
-					res.problems = append(res.problems, fmt.Sprintf("%s: %s.Lock() while already holding it (self-deadlock)", e.c.Pos(call.Pos()), lockName(id)))
+				if ls[id] != modeNone {
+					e.noteProblem(f, fmt.Sprintf("%s: %s.Lock() while already holding it on some path (self-deadlock)", e.c.Pos(call.Pos()), lockName(id)))
 				}
 				ls[id] = modeW
 			case "RLock":
@@ -555,10 +556,10 @@ func (e *lockEngine) step(f *ssa.Function, ins ssa.Instruction, ls lockset, df m
 			if !e.c.IsModFn(cf) {
 				continue
 			}
+			if e.acquires[cf][lockID(e.reqMutex)] && ls[lockID(e.reqMutex)] != modeNone {
+				e.noteProblem(f, fmt.Sprintf("%s: call to %s, which may acquire %s, while holding it on some path (self-deadlock)", e.c.Pos(call.Pos()), fnKey(cf), lockName(e.reqMutex)))
+			}
 			if res != nil {
-				if e.acquires[cf][lockID(e.reqMutex)] && ls[lockID(e.reqMutex)] != modeNone {
-					res.problems = append(res.problems, fmt.Sprintf("%s: call to %s, which may acquire %s, while holding it (self-deadlock)", e.c.Pos(call.Pos()), fnKey(cf), lockName(e.reqMutex)))
-				}
 				res.calls = append(res.calls, callRec{callee: cf, locks: ls.clone(), site: ins})
 			}
 			// only functions that lock/unlock something can change the lockset
@@ -592,6 +593,19 @@ func (e *lockEngine) step(f *ssa.Function, ins ssa.Instruction, ls lockset, df m
 	for _, a := range e.directAccessesAt(f, ins) {
 		res.direct = append(res.direct, access{loc: a.loc, write: a.write, locks: ls.clone(), pos: ins.Pos(), fn: f})
 	}
+}
+
+// noteProblem records a may-hold problem (states seen during the fixpoint are realised on some path).
+func (e *lockEngine) noteProblem(f *ssa.Function, msg string) {
+	if e.probs == nil {
+		e.probs = map[*ssa.Function][]string{}
+	}
+	for _, m := range e.probs[f] {
+		if m == msg {
+			return
+		}
+	}
+	e.probs[f] = append(e.probs[f], msg)
 }
 
 type handlerFootprint struct {
@@ -636,7 +650,7 @@ func (e *lockEngine) footprint(h *ssa.Function) *handlerFootprint {
 				fp.accesses = append(fp.accesses, a)
 			}
 		}
-		fp.problems = append(fp.problems, r.problems...)
+		fp.problems = append(fp.problems, e.probs[it.f]...)
 		fp.goSites = append(fp.goSites, r.goSites...)
 		for _, cr := range r.calls {
 			n := node{cr.callee, cr.locks.key()}
